@@ -128,6 +128,11 @@ class Run:
         for ck, (case, v) in self.viol_classes.items():
             e = match_known(self.prop, v, self.known)
             if e is not None:
+                if e["id"] not in known_hits:
+                    os.makedirs(outdir, exist_ok=True)
+                    with open(os.path.join(outdir, "known-%s.json" % e["id"]), "w") as f:
+                        json.dump(dict(property=self.prop, case=case, violation=v, known_finding=e["id"],
+                                       func=getattr(self.mod, "REPLAY_FUNC", "run_case")), f, indent=1, sort_keys=True, default=str)
                 known_hits.setdefault(e["id"], (e, case, v))
                 continue
             os.makedirs(outdir, exist_ok=True)
